@@ -163,10 +163,13 @@ class Parsed(object):
     pass
 
 
-def parse(data, at=0, allow_trailing=True):
+def parse(data, at=0, allow_trailing=True, ignore_total=False):
     """Strict structural parser.  Accepts exactly well-formed framing: signatures, every
     declared length consistent with the content and the total, padding octets zero.  It
-    does not look into section 4 (see message.decode for that)."""
+    does not look into section 4 (see message.decode for that).
+    ignore_total: the view of a reader that walks the sections by their declared lengths and
+    wants the stop signature right after section 4, without using the total length of
+    section 0 (used to decide whether damage is visible to such a reader)."""
     p = Parsed()
     b = data[at:]
     if len(b) < 8 or b[0:4] != b'BUFR':
@@ -175,13 +178,16 @@ def parse(data, at=0, allow_trailing=True):
     p.edition = b[7]
     if p.edition not in (2, 3, 4):
         raise IllFormed('edition %d' % p.edition)
-    if p.total > len(b):
-        raise IllFormed('declared total length runs past the input')
-    if not allow_trailing and p.total != len(b):
-        raise IllFormed('trailing bytes')
-    msg = b[:p.total]
-    if msg[-4:] != b'7777':
-        raise IllFormed('no stop signature at the declared end')
+    if ignore_total:
+        msg = b
+    else:
+        if p.total > len(b):
+            raise IllFormed('declared total length runs past the input')
+        if not allow_trailing and p.total != len(b):
+            raise IllFormed('trailing bytes')
+        msg = b[:p.total]
+        if msg[-4:] != b'7777':
+            raise IllFormed('no stop signature at the declared end')
     p.bytes = msg
     p.meta = {'edition': p.edition}
     p.section_lengths = {}
@@ -232,7 +238,12 @@ def parse(data, at=0, allow_trailing=True):
     p.data_start_bit = (pos + 4) * 8
     p.data_end_bit = (pos + l4) * 8
     pos += l4
-    if pos + 4 != p.total:
+    if ignore_total:
+        if msg[pos:pos + 4] != b'7777':
+            raise IllFormed('no stop signature after section 4')
+        p.total = pos + 4
+        p.bytes = msg[:p.total]
+    elif pos + 4 != p.total:
         raise IllFormed('sections end at %d, total length says %d' % (pos + 4, p.total))
     p.offsets[5] = pos
     return p
